@@ -250,8 +250,12 @@ fn compare_obs(t: &mut Tally, case: &Value, board: &Board, exp: &Value, moved: b
         t.mismatch("C05", "write", case, exp["fen"].clone(), obs["fen"].clone());
     }
     // twin: the same position rebuilt from the implementation's own text
+    // (C05 quantifies over clock values 0..9999: the text form has four digits)
+    let in_text_range = board.half_move_clock() <= 9999 && board.full_move_clock() <= 9999;
     let tw = &obs["twin"];
-    if tw["ok"] != json!(true) {
+    if !in_text_range {
+        t.inc("beyond_text_range");
+    } else if tw["ok"] != json!(true) {
         t.mismatch("C05", "reparse-own-text", case, json!("ok"), tw.clone());
     } else {
         if tw["eq"] != json!(true) || tw["pos_eq"] != json!(true) {
@@ -287,6 +291,7 @@ fn compare_obs(t: &mut Tally, case: &Value, board: &Board, exp: &Value, moved: b
     // C05: the specification's text parses to this very board and is written back byte for byte
     let text = exp["fen"].as_str().unwrap_or("");
     match text.parse::<Board>() {
+        _ if !in_text_range => {}
         Err(e) => t.mismatch("C05", "parse-canonical", case, json!(text), json!(format!("{e:?}"))),
         Ok(parsed) => {
             if !same_board(&parsed, board) || parsed.half_move_clock() != board.half_move_clock()
